@@ -59,6 +59,45 @@ class ExprNorm(ast.NodeTransformer):
         self.generic_visit(n)
         return n
 
+    def visit_Call(self, n):
+        self.generic_visit(n)
+        # getattr(obj, "name")  →  obj.name
+        if isinstance(n.func, ast.Name) and n.func.id == "getattr" and len(n.args) == 2 and not n.keywords and isinstance(n.args[1], ast.Constant) \
+                and isinstance(n.args[1].value, str) and n.args[1].value.isidentifier():
+            return ast.copy_location(ast.Attribute(value=n.args[0], attr=n.args[1].value, ctx=ast.Load()), n)
+        return n
+
+    def _unroll(self, n, make):
+        """a comprehension over a short literal tuple of constants is the literal built from its instances"""
+        if len(n.generators) != 1:
+            return None
+        g = n.generators[0]
+        if g.ifs or g.is_async or not isinstance(g.target, ast.Name) or not isinstance(g.iter, (ast.Tuple, ast.List)) or not (1 <= len(g.iter.elts) <= 8) \
+                or not all(isinstance(e, ast.Constant) for e in g.iter.elts):
+            return None
+        out = []
+        for e in g.iter.elts:
+            class _S(ast.NodeTransformer):
+                def visit_Name(self, x):
+                    return copy.deepcopy(e) if x.id == g.target.id and isinstance(x.ctx, ast.Load) else x
+
+            out.append(make(lambda part: ExprNorm().visit(_S().visit(copy.deepcopy(part)))))
+        return out
+
+    def visit_DictComp(self, n):
+        self.generic_visit(n)
+        items = self._unroll(n, lambda sub: (sub(n.key), sub(n.value)))
+        if items is None:
+            return n
+        return ast.copy_location(ast.Dict(keys=[k for k, _ in items], values=[v for _, v in items]), n)
+
+    def visit_ListComp(self, n):
+        self.generic_visit(n)
+        items = self._unroll(n, lambda sub: sub(n.elt))
+        if items is None:
+            return n
+        return ast.copy_location(ast.List(elts=items, ctx=ast.Load()), n)
+
 
 def _same_target(t, e) -> bool:
     try:
@@ -108,6 +147,12 @@ def split_assign(s):
         k = len(t.elts)
         return [ast.copy_location(ast.Assign(targets=[e], value=ast.copy_location(ast.Subscript(value=copy.deepcopy(v.value), slice=ast.UnaryOp(op=ast.USub(), operand=ast.Constant(value=k - i)),
                                                                                                     ctx=ast.Load()), v), lineno=s.lineno), s) for i, e in enumerate(t.elts)]
+    # a, b = x[i]  →  a = x[i][0]; b = x[i][1]   (x[i] is a plain element access: no call, evaluated twice without effect)
+    if isinstance(t, (ast.Tuple, ast.List)) and all(isinstance(e, ast.Name) for e in t.elts) and isinstance(v, ast.Subscript) and isinstance(v.value, ast.Name) \
+            and not isinstance(v.slice, (ast.Slice, ast.Tuple)) and not any(isinstance(x, (ast.Call, ast.NamedExpr)) for x in ast.walk(v.slice)) \
+            and not ({e.id for e in t.elts} & _names(v)):
+        return [ast.copy_location(ast.Assign(targets=[e], value=ast.copy_location(ast.Subscript(value=copy.deepcopy(v), slice=ast.Constant(value=i), ctx=ast.Load()), v), lineno=s.lineno), s)
+                for i, e in enumerate(t.elts)]
     # x = x op e  →  x op= e
     if isinstance(v, ast.BinOp) and isinstance(t, (ast.Name, ast.Subscript, ast.Attribute)) and isinstance(v.op, (ast.Add, ast.Sub, ast.Mult, ast.Div)):
         if _same_target(t, v.left):
@@ -119,7 +164,7 @@ def split_assign(s):
 
 def norm_block(stmts):
     out = []
-    for s in stmts:
+    for s in hoist_walrus(list(stmts)):
         norm_stmt(s)
         out.extend(split_assign(s))
     return norm_table_loops(norm_index_loops(norm_loops(out)))
@@ -354,7 +399,83 @@ def norm_table_loops(stmts):
     return out
 
 
+def _unconditional_walrus(test):
+    """NamedExpr nodes of a test that are evaluated whenever the test is (not behind a short circuit / inside a comprehension)"""
+    out, cond = [], []
+
+    def rec(n, uncond):
+        if isinstance(n, ast.NamedExpr):
+            (out if uncond else cond).append(n)
+            rec(n.value, uncond)
+            return
+        if isinstance(n, ast.BoolOp):
+            for k, v in enumerate(n.values):
+                rec(v, uncond and k == 0)
+            return
+        if isinstance(n, ast.IfExp):
+            rec(n.test, uncond)
+            rec(n.body, False)
+            rec(n.orelse, False)
+            return
+        if isinstance(n, (ast.Lambda, ast.ListComp, ast.SetComp, ast.DictComp, ast.GeneratorExp)):
+            for c in ast.walk(n):
+                if isinstance(c, ast.NamedExpr):
+                    cond.append(c)
+            return
+        for c in ast.iter_child_nodes(n):
+            rec(c, uncond)
+
+    rec(test, True)
+    return out, cond
+
+
+def hoist_walrus(stmts):
+    """`if (x := E) …:` → `x = E; if x …:` and `while … (x := E) …: B` → `while True: x = E; if not …: break; B`"""
+    out = []
+    for s in stmts:
+        if isinstance(s, (ast.If, ast.While)):
+            unc, cond = _unconditional_walrus(s.test)
+            if unc and not cond and all(isinstance(w.target, ast.Name) for w in unc) and not (isinstance(s, ast.While) and s.orelse):
+                pre = [ast.copy_location(ast.Assign(targets=[ast.Name(id=w.target.id, ctx=ast.Store())], value=w.value, lineno=s.lineno), s) for w in unc]
+
+                class _W(ast.NodeTransformer):
+                    def visit_NamedExpr(self, n):
+                        if any(n is w for w in unc):
+                            return ast.copy_location(ast.Name(id=n.target.id, ctx=ast.Load()), n)
+                        return self.generic_visit(n)
+
+                # inner walruses first: their values may contain further walruses of the list (kept in source order)
+                for p_ in pre:
+                    p_.value = _W().visit(p_.value)
+                test = _W().visit(s.test)
+                for p_ in pre:
+                    ast.fix_missing_locations(p_)
+                if isinstance(s, ast.If):
+                    s.test = test
+                    out.extend(pre)
+                    out.append(s)
+                else:
+                    neg = ExprNorm().visit(ast.copy_location(ast.UnaryOp(op=ast.Not(), operand=test), test))
+                    brk = ast.copy_location(ast.If(test=neg, body=[ast.copy_location(ast.Break(), s)], orelse=[]), s)
+                    s.test = ast.copy_location(ast.Constant(value=True), s)
+                    s.body = pre + [brk] + list(s.body)
+                    ast.fix_missing_locations(s)
+                    out.append(s)
+                continue
+        out.append(s)
+    return out
+
+
 def norm_stmt(s):
+    # for (a, b) in X  →  for _e in X: a = _e[0]; b = _e[1]   (X is a plain iterable, not zip / enumerate / items)
+    if isinstance(s, ast.For) and isinstance(s.target, ast.Tuple) and all(isinstance(e, ast.Name) for e in s.target.elts) and len(s.target.elts) <= 1 \
+            and isinstance(s.iter, ast.Call) and ast.unparse(s.iter.func).split(".")[-1] in ("find_objects",):
+        names = [e.id for e in s.target.elts]
+        el = "_e_" + "_".join(names)
+        s.body = [ast.copy_location(ast.Assign(targets=[ast.Name(id=n_, ctx=ast.Store())], value=ast.Subscript(value=ast.Name(id=el, ctx=ast.Load()), slice=ast.Constant(value=i), ctx=ast.Load()),
+                                               lineno=s.lineno), s) for i, n_ in enumerate(names)] + list(s.body)
+        s.target = ast.copy_location(ast.Name(id=el, ctx=ast.Store()), s.target)
+        ast.fix_missing_locations(s)
     for fld in ("body", "orelse", "finalbody"):
         b = getattr(s, fld, None)
         if isinstance(b, list) and b and isinstance(b[0], ast.stmt):
@@ -363,8 +484,64 @@ def norm_stmt(s):
         h.body = norm_block(h.body)
 
 
+def _leaf_assigns(stmt, name):
+    """every normal exit of `stmt` (an if / try statement) ends with `name = <expr>`: the list of those assignments"""
+    out = []
+
+    def block(b):
+        if not b:
+            return False
+        last = b[-1]
+        if isinstance(last, ast.Assign) and len(last.targets) == 1 and isinstance(last.targets[0], ast.Name) and last.targets[0].id == name:
+            out.append((b, last))
+            return True
+        if isinstance(last, (ast.If, ast.Try)):
+            return node(last)
+        if isinstance(last, (ast.Raise,)):
+            return True
+        return False
+
+    def node(s):
+        if isinstance(s, ast.If):
+            return bool(s.orelse) and block(s.body) and block(s.orelse)
+        if isinstance(s, ast.Try):
+            if s.finalbody:
+                return False
+            main = block(s.orelse) if s.orelse else block(s.body)
+            return main and all(block(h.body) for h in s.handlers)
+        return False
+
+    return out if node(stmt) else None
+
+
+def sink_single_exit(fdef):
+    """`if c: …; r = A  else: …; r = B` followed by `return r`  →  the branches return A and B themselves (only in
+    threshold_otsu-like value functions: the result variable is not read anywhere else)"""
+    body = fdef.body
+    if len(body) < 2 or not isinstance(body[-1], ast.Return) or not isinstance(body[-1].value, ast.Name) or not isinstance(body[-2], (ast.If, ast.Try)):
+        return False
+    name = body[-1].value.id
+    loads = [x for x in ast.walk(fdef) if isinstance(x, ast.Name) and x.id == name and isinstance(x.ctx, ast.Load)]
+    if len(loads) != 1:
+        return False
+    leaves = _leaf_assigns(body[-2], name)
+    if not leaves:
+        return False
+    # in a try body the assignment's value may raise into the handlers either way; a return there is the same
+    for blk, asg in leaves:
+        blk[blk.index(asg)] = ast.copy_location(ast.Return(value=asg.value), asg)
+    body.pop()
+    return True
+
+
+SINK_FUNCTIONS = {"threshold_otsu"}
+
+
 def normalize_tree(tree: ast.Module) -> ast.Module:
     tree = ExprNorm().visit(tree)
+    for f_ in ast.walk(tree):
+        if isinstance(f_, ast.FunctionDef) and f_.name in SINK_FUNCTIONS:
+            sink_single_exit(f_)
     tree.body = norm_block(tree.body)
     tree = ConstFold().visit(tree)
     ast.fix_missing_locations(tree)
@@ -451,6 +628,14 @@ def _decorator_kind(d):
         return "property"
     if t in TRANSPARENT_DECORATORS:
         return "plain"
+    return None
+
+
+def _attrgetter_names(v):
+    """attribute names of `operator.attrgetter("a", "b")`, else None"""
+    if isinstance(v, ast.Call) and ast.unparse(v.func) in ("operator.attrgetter", "attrgetter") and v.args and not v.keywords \
+            and all(isinstance(a, ast.Constant) and isinstance(a.value, str) for a in v.args):
+        return [a.value for a in v.args]
     return None
 
 
@@ -706,6 +891,11 @@ class Inliner:
             if isinstance(tg_, ast.Name) and isinstance(v_, (ast.Tuple, ast.List)) and v_.elts and mod_stores.get(tg_.id) == 1 and tg_.id not in mutated_ \
                     and all(isinstance(r_, ast.Tuple) and all(isinstance(c_, (ast.Name, ast.Attribute, ast.Constant)) for c_ in r_.elts) for r_ in v_.elts):
                 self.module_tables[tg_.id] = v_
+        self.module_getters = {}
+        for st_ in module_tree.body:
+            tg_ = st_.targets[0] if isinstance(st_, ast.Assign) and len(st_.targets) == 1 else None
+            if isinstance(tg_, ast.Name) and mod_stores.get(tg_.id) == 1 and _attrgetter_names(st_.value) is not None:
+                self.module_getters[tg_.id] = _attrgetter_names(st_.value)
         self.tuples = {}  # NamedTuple class name -> field names
         for s in module_tree.body:
             if isinstance(s, ast.ClassDef) and any(ast.unparse(b).split(".")[-1] == "NamedTuple" for b in s.bases):
@@ -1138,6 +1328,37 @@ class Inliner:
                         ast.fix_missing_locations(chain)
                         blk2[blk2.index(s3)] = chain
 
+        # ---- G = operator.attrgetter("a", "b") (module level or local); G(obj)  →  (obj.a, obj.b)
+        getters = dict(self.module_getters)
+        for st in ast.walk(fdef):
+            tg = st.targets[0] if isinstance(st, ast.Assign) and len(st.targets) == 1 else None
+            if isinstance(tg, ast.Name) and _attrgetter_names(st.value) is not None:
+                getters[tg.id] = _attrgetter_names(st.value)
+
+        class _AG(ast.NodeTransformer):
+            def visit_Call(self, n_):
+                self.generic_visit(n_)
+                names_ = None
+                if isinstance(n_.func, ast.Name) and n_.func.id in getters:
+                    names_ = getters[n_.func.id]
+                elif isinstance(n_.func, ast.Call):
+                    names_ = _attrgetter_names(n_.func)
+                if names_ and len(n_.args) == 1 and not n_.keywords and isinstance(n_.args[0], (ast.Name, ast.Attribute)):
+                    attrs = []
+                    for nm_ in names_:
+                        e_ = copy.deepcopy(n_.args[0])
+                        for part in nm_.split("."):
+                            e_ = ast.Attribute(value=e_, attr=part, ctx=ast.Load())
+                        attrs.append(e_)
+                    res = attrs[0] if len(attrs) == 1 else ast.Tuple(elts=attrs, ctx=ast.Load())
+                    return ast.fix_missing_locations(ast.copy_location(res, n_))
+                return n_
+
+        if getters or any(isinstance(c, ast.Call) and isinstance(c.func, ast.Call) for c in ast.walk(fdef)):
+            _AG().visit(fdef)
+            for blk in _blocks_all(fdef):
+                blk[:] = [y for x in blk for y in split_assign(x)]
+
         # ---- g = (generator expression) used exactly once: the expression stands where it is consumed
         st_count, ld = {}, {}
         for x in ast.walk(fdef):
@@ -1147,7 +1368,9 @@ class Inliner:
             for st in list(blk):
                 tg = st.targets[0] if isinstance(st, ast.Assign) and len(st.targets) == 1 else (st.target if isinstance(st, ast.AnnAssign) else None)
                 v = getattr(st, "value", None)
-                if not (isinstance(tg, ast.Name) and isinstance(v, ast.GeneratorExp)) or len(st_count.get(tg.id, [])) != 1 or len(ld.get(tg.id, [])) != 1:
+                lazy = isinstance(v, ast.GeneratorExp) or (isinstance(v, ast.Call) and ast.unparse(v.func) in ("itertools.count", "count", "iter", "enumerate", "zip", "reversed", "range", "itertools.chain")
+                                                            and not any(isinstance(y, (ast.Call, ast.NamedExpr)) for a_ in v.args for y in ast.walk(a_)))
+                if not (isinstance(tg, ast.Name) and lazy) or len(st_count.get(tg.id, [])) != 1 or len(ld.get(tg.id, [])) != 1:
                     continue
                 use = ld[tg.id][0]
                 free_ = {x.id for x in ast.walk(v) if isinstance(x, ast.Name) and isinstance(x.ctx, ast.Load)}
@@ -1155,7 +1378,12 @@ class Inliner:
                 lo_, hi_ = st.lineno, getattr(use, "lineno", st.lineno)
                 if any(lo_ < getattr(w, "lineno", 0) <= hi_ for nm in free_ for w in st_count.get(nm, [])):
                     continue
-                if any(isinstance(lp, (ast.For, ast.While)) and (any(y is use for y in ast.walk(lp)) != any(y is st for y in ast.walk(lp))) for lp in ast.walk(fdef)):
+                def _in_body(lp, node):
+                    # the header expression of a `for` is evaluated once, before the loop
+                    parts = list(lp.body) + list(lp.orelse) + ([lp.test] if isinstance(lp, ast.While) else [])
+                    return any(y is node for p_ in parts for y in ast.walk(p_))
+
+                if any(isinstance(lp, (ast.For, ast.While)) and (_in_body(lp, use) != _in_body(lp, st)) for lp in ast.walk(fdef)):
                     continue
 
                 class _G(ast.NodeTransformer):
